@@ -580,6 +580,83 @@ fn hammer(rep: &mut Rep, sh: &Shared, threads: usize, calls_per_thread: usize, s
 }
 
 // ---------------------------------------------------------------------------------------------
+// (2e) same-kind bursts with a progress monitor
+// ---------------------------------------------------------------------------------------------
+
+/// The mixed workload rarely has many threads inside the SAME method at the same moment. Here, per call kind, `threads`
+/// barrier-released threads all make the same call (the query of that kind which is accepted sequentially, if there
+/// is one) `reps` times. A watcher thread counts completed calls: the workload is bounded (threads x reps calls of
+/// milliseconds each), so if not a single call completes for 120 s while others are outstanding, the calls are
+/// waiting for each other - reported through the marker line and exit code 86, which the driver turns into the
+/// violation `shared-instance:no-progress:<kind>` (the stuck threads cannot be joined).
+fn bursts(rep: &mut Rep, sh: &Shared, threads: usize, reps: usize) {
+    use std::sync::atomic::AtomicBool;
+    let mut by_kind: std::collections::BTreeMap<&'static str, Vec<usize>> = Default::default();
+    for (i, q) in sh.queries.iter().enumerate() {
+        by_kind.entry(q.kind()).or_default().push(i);
+    }
+    for (kind, idxs) in by_kind {
+        let qi = idxs.iter().cloned().find(|i| sh.expected[*i] == vec![1u8]).unwrap_or(idxs[0]);
+        let q = &sh.queries[qi];
+        let reps = if matches!(q, Q::Witness(_)) { reps.min(2) } else { reps };
+        let done = AtomicU64::new(0);
+        let finished = AtomicBool::new(false);
+        let barrier = Barrier::new(threads);
+        let total = (threads * reps) as u64;
+        let mut bad: Vec<serde_json::Value> = vec![];
+        std::thread::scope(|s| {
+            s.spawn(|| {
+                let (mut last, mut idle) = (0u64, 0u32);
+                while !finished.load(Ordering::SeqCst) {
+                    std::thread::sleep(std::time::Duration::from_millis(250));
+                    let d = done.load(Ordering::SeqCst);
+                    if d == last {
+                        idle += 1;
+                    } else {
+                        idle = 0;
+                        last = d;
+                    }
+                    if idle >= 480 && d < total {
+                        eprintln!("[vh] NO-PROGRESS kind={kind} threads={threads} completed={d} of={total} idle_s=120");
+                        std::process::exit(86);
+                    }
+                }
+            });
+            let hs: Vec<_> = (0..threads)
+                .map(|t| {
+                    let (done, barrier) = (&done, &barrier);
+                    s.spawn(move || {
+                        let mut bad = vec![];
+                        barrier.wait();
+                        for c in 0..reps {
+                            let got = run_q(&sh.r, q, false);
+                            done.fetch_add(1, Ordering::SeqCst);
+                            match got {
+                                Ok(v) if v == sh.expected[qi] => {}
+                                Ok(v) => bad.push(json!({"thread": t, "call_no": c, "expected": hex_short(&sh.expected[qi]), "got": hex_short(&v)})),
+                                Err(e) => bad.push(json!({"thread": t, "call_no": c, "panic": e})),
+                            }
+                        }
+                        bad
+                    })
+                })
+                .collect();
+            for h in hs {
+                if let Ok(b) = h.join() {
+                    bad.extend(b);
+                }
+            }
+            finished.store(true, Ordering::SeqCst);
+        });
+        rep.evn(total);
+        rep.stratum(format!("burst|{kind}|threads={threads}|{}", if sh.expected[qi] == vec![1u8] { "accepted-sequentially" } else { "other" }));
+        for b in bad.into_iter().take(3) {
+            rep.violation(format!("shared-instance:same-kind-burst:{kind}:differs-from-sequential"), b);
+        }
+    }
+}
+
+// ---------------------------------------------------------------------------------------------
 // (2b) storm of cheap pure calls: many threads walk over the same few inputs at a high call rate
 // ---------------------------------------------------------------------------------------------
 
@@ -983,8 +1060,8 @@ fn recreate_loop(rep: &mut Rep, seed: u64, cycles: usize) {
 }
 
 pub fn run(rep: &mut Rep, args: &[String]) {
-    rep.rule = "(1) the transcript (roots after 24 batch updates incl. rayon-parallel range writes on a persistent tree, serialized and graph witnesses, proof values, proof generation + verification verdicts, verdicts on a fixed corpus of valid/tampered/truncated messages) of separate processes (explicit pool sizes 1,2,3,4,5,7,16 and children confined to 3 / 6 processors with the pool size left to the machine; batches of up to 7919 leaves whose length no small worker count divides, through set_leaves_from, atomic_operation and init_tree_with_leaves) must have the same SHA-256; (2) every read-only call kind (verify*, get_root/leaf/proof/subtree_root/empty indices/metadata, hash, poseidon_hash, seeded keygen, witness calculation, recover) issued concurrently by 2..64 threads on one shared instance, through &RLN and through *const RLN of the FFI, must return its sequential result; (2b) a storm of cheap pure calls (Poseidon through three entry points, hash-to-field, seeded key derivation) from 2..16 threads walking over the same few related inputs must return the from-spec reference values; (2d) the bundled witness graph and a variant of it are evaluated by 8 threads at the same time and must give their sequential results; (2c) fresh instances receive their very first calls from 8 threads at once (no sequential warm-up) and must answer like a sequentially queried twin; fresh processes race the first use of the lazily initialised globals; (4) create-write-flush-drop-create cycles on one storage location. distinct_nontrivial = distinct (call kind x concurrently in-flight call kind) overlaps actually observed, pool sizes, recreate latency classes".into();
-    rep.assumptions = vec!["schedules are sampled, not enumerated; a watchdog timeout is inconclusive, not a violation".into()];
+    rep.rule = "(1) the transcript (roots after 24 batch updates incl. rayon-parallel range writes on a persistent tree, serialized and graph witnesses, proof values, proof generation + verification verdicts, verdicts on a fixed corpus of valid/tampered/truncated messages) of separate processes (explicit pool sizes 1,2,3,4,5,7,16 and children confined to 3 / 6 processors with the pool size left to the machine; batches of up to 7919 leaves whose length no small worker count divides, through set_leaves_from, atomic_operation and init_tree_with_leaves) must have the same SHA-256; (2) every read-only call kind (verify*, get_root/leaf/proof/subtree_root/empty indices/metadata, hash, poseidon_hash, seeded keygen, witness calculation, recover) issued concurrently by 2..64 threads on one shared instance, through &RLN and through *const RLN of the FFI, must return its sequential result; (2e) per call kind, 9 / 16 / 32 barrier-released threads all make the same call (the sequentially accepted query of that kind) at once, with a progress monitor: no completed call for 120 s while calls are outstanding = the calls wait for each other; (2b) a storm of cheap pure calls (Poseidon through three entry points, hash-to-field, seeded key derivation) from 2..16 threads walking over the same few related inputs must return the from-spec reference values; (2d) the bundled witness graph and a variant of it are evaluated by 8 threads at the same time and must give their sequential results; (2c) fresh instances receive their very first calls from 8 threads at once (no sequential warm-up) and must answer like a sequentially queried twin; fresh processes race the first use of the lazily initialised globals; (4) create-write-flush-drop-create cycles on one storage location. distinct_nontrivial = distinct (call kind x concurrently in-flight call kind) overlaps actually observed, pool sizes, recreate latency classes".into();
+    rep.assumptions = vec!["schedules are sampled, not enumerated; a watchdog timeout of a whole step is inconclusive, not a violation; the only time-based verdict is the no-progress monitor of the same-kind bursts (no call out of a bounded set of millisecond calls completes for 120 s)".into()];
     let thorough = rep.thorough();
     let seed = rep.seed;
     let only = arg(args, "--only");
@@ -1000,6 +1077,9 @@ pub fn run(rep: &mut Rep, args: &[String]) {
             for (threads, ffi) in [(2usize, false), (8, false), (16, true), (32, false), (64, false), (16, false)] {
                 hammer(rep, &sh, threads, per.max(8), seed, ffi, &format!("t{threads}{}", if ffi { "ffi" } else { "" }));
                 rep.stratum(format!("shared|threads={threads}|ffi={ffi}"));
+            }
+            for threads in [16usize, 9, 32] {
+                bursts(rep, &sh, threads, (if thorough { 24 } else { 6 }) * scale.max(25) / 100);
             }
             if want("cold") || only.is_none() {
                 cold_instances(rep, &sh, if thorough { 60 } else { 8 } * scale.max(25) / 100, 8, seed);
